@@ -428,6 +428,9 @@ def default_jobs(tier):
 
 def write_replay(pid, v, seed, tier):
     d = os.path.join(ROOT, "replays", pid)
+    if os.environ.get("VERIF_REPO"):
+        # sensitivity experiments on scratch copies: keep their replays apart
+        d = os.path.join(ROOT, "replays", "_scratch", pid)
     os.makedirs(d, exist_ok=True)
     h = case_hash([v["kind"], v["case"]])
     p = os.path.join(d, h + ".json")
